@@ -16,6 +16,7 @@ import OciModel.Driver.BlobReader
 import OciModel.Driver.Unify
 import OciModel.Driver.UnifyConc
 import OciModel.Driver.Auth
+import OciModel.Driver.Iter
 
 structure DState where
   scopes : OciModel.Driver.Scope.Regs := []
@@ -43,6 +44,7 @@ def step (st : DState) (line : String) : DState × String :=
   | "uni" :: rest =>
     let (u, out) := OciModel.Driver.Unify.drive st.uni rest
     ({ st with uni := u }, out)
+  | "dbg" :: rest => (st, OciModel.Driver.Iter.drive rest)
   | "uconc" :: rest => (st, OciModel.Driver.UnifyConc.drive rest)
   | "rd" :: rest => (st, OciModel.Driver.BlobReader.drive rest)
   | "conc" :: rest => (st, OciModel.Driver.Conc.drive rest)
